@@ -659,12 +659,13 @@ variable {e : Enc} {ops : List Op} {t : Tx} {obj : ObjId} {index : Nat} {text : 
     Freshness is stated on counters (`CtrBelow`): every id, predecessor and reference element in
     `ops` has a counter below the transaction's next counter — what C04's start op gives.
 
-    PARTIAL: `del = 0` only.  Missing: with `del > 0` the delete loop (`deleteLoop`) then removes
-    whole elements from unit `idx + inserted width` on until `del` units are gone; the full
-    statement is  textOf (after) = textOf (take j) ++ text ++ textOf (drop (j + m))  where `m` is
-    the least number of elements after position `j` whose width reaches `del` (all remaining
-    elements if there are fewer).  Each delete step is `C03_seq_op_at_unit` with action `.del`;
-    the induction over the loop is not done. -/
+    PARTIAL: `del = 0` only.  SUPERSEDED by `AmVerif.Props.C03Splice.C03_splice_text_elements`
+    (Props/C03Splice.lean), which proves the full statement for every `del`: with `del > 0` the
+    delete loop (`deleteLoop`) then removes whole elements from unit `idx + inserted width` on
+    until `del` units are gone;  textOf (after) = textOf (take j) ++ text ++ textOf (drop (j + m))
+    where `m` is the least number of elements after position `j` whose width reaches `del` (all
+    remaining elements if there are fewer) — `C03_splice_text_content`, ops: `C03_splice_text_ops`.
+    Kept as the `del = 0` special case. -/
 theorem C03_splice_text_elements_partial (hs : StrictIds ops)
     (hb : CtrBelow ops (t.startOp + t.pending.length)) (hr : RefsSmaller ops)
     (h : localSpliceText e ops t obj index 0 text = .ok l) (hne : text ≠ []) :
@@ -677,7 +678,8 @@ theorem C03_splice_text_elements_partial (hs : StrictIds ops)
   splice_insert_at hs hb hr h hne
 
 /-- … text level: the resulting text is the old text with the new text inserted at that
-    position.  PARTIAL: `del = 0` only (see above). -/
+    position.  PARTIAL: `del = 0` only; SUPERSEDED by
+    `AmVerif.Props.C03Splice.C03_splice_text_content` (every `del`). -/
 theorem C03_splice_text_content_partial (hs : StrictIds ops)
     (hb : CtrBelow ops (t.startOp + t.pending.length)) (hr : RefsSmaller ops)
     (h : localSpliceText e ops t obj index 0 text = .ok l) (hne : text ≠ []) :
